@@ -35,6 +35,33 @@ def budget(tier):
     return {"runs": 9000, "run_timeout": 60, "max_wall": 200}
 
 
+def initialiser_stratum(ctx, w, d, rm, lm):
+    """the depth-limited population initialisers at a feasible limit: every individual within the limit, none failing"""
+    from geneticengine.representations.tree.operators import FullInitializer, PositionIndependentGrowInitializer
+
+    H = ctx.H
+    name = H.pick(["full", "pigrow"])
+    init = FullInitializer(d) if name == "full" else PositionIndependentGrowInitializer(d)
+    from ..world import OpResult
+
+    res = OpResult("initialise")
+    inds = w.guarded(res, lambda: list(init.initialize(None, w.rep, w.random, 2 + H.draw(5))))
+    ctx.stat("initialiser_runs")
+    if not res.ok:
+        if res.error != "step-cap":
+            ctx.violate(f"C03/feasible-limit-fails/initialiser:{name}/{res.foreign or res.error}",
+                        f"{name} initialiser with max_depth={d} (reference minimum {rm}, reported {lm}) failed: {res.error} {res.tb}")
+        return
+    for ind in inds:
+        p = ind.genotype
+        if w.ref.conforms(p, w.start_type()) is not None:
+            continue
+        dp = w.ref.depth(p)
+        if dp > d:
+            ctx.violate(f"C03/depth-exceeded/initialiser:{name}", f"{name} initialiser with max_depth={d} produced a program of depth {dp}: {render_value(p, w.ref)}")
+            return
+
+
 def run(ctx):
     H = ctx.H
     feat = dict(FEAT)
@@ -111,7 +138,7 @@ def run(ctx):
                     continue
                 # a failing operation
                 if zone == "feasible":
-                    ctx.violate(f"C03/feasible-limit-fails/{cfg}/{how.split('+')[0]}/{rr.foreign or rr.error}",
+                    ctx.violate(f"C03/feasible-limit-fails/{cfg}/{rr.foreign or rr.error}",
                                 f"{how} failed although max_depth={d} >= minimum depth (reference {rm}, reported {lm}): {rr.error} {rr.tb}")
                 else:
                     # must be the library's error, raised before any draw
@@ -125,5 +152,7 @@ def run(ctx):
                     else:
                         ctx.stat("rejected_at_first_use")
         ctx.sample["ops"] = ops[:20]
+        if w.rep_kind == "tree" and zone == "feasible" and H.draw(3) == 2:
+            initialiser_stratum(ctx, w, d, rm, lm)
     finally:
         w.dispose()
